@@ -5,10 +5,11 @@
 #include "tp/tp_common.h"
 
 enum { O_END = 0, O_CREATE, O_TCREATE0, O_TCREATE1, O_ATTACH, O_INFL_MSG, O_INFL_READ, O_INFL_TIMER,
-       O_SHUT, O_SHUT_B, O_SHUT_W, O_WAIT, O_DESTROY, O_QUIESCE, O_INFL_BUSY, O_GATE_B, O_HOOK_WAITS, O_INFL_STUCK, O_INFL_SYNC_BCAST };
+       O_SHUT, O_SHUT_B, O_SHUT_W, O_WAIT, O_DESTROY, O_QUIESCE, O_INFL_BUSY, O_GATE_B, O_HOOK_WAITS, O_INFL_STUCK, O_INFL_SYNC_BCAST, O_LATE_AOP, O_HOOK_GATE };
 static const char *opname[] = { "end", "create", "threads_create(0)", "threads_create(skip_first)", "attach_first", "inflight:msg",
        "inflight:read-event", "inflight:timer", "shutdown", "shutdown(concurrent thread B)", "shutdown(from worker)", "shutdown_wait", "destroy", "quiesce", "inflight:busy-callback", "open-gate(thread G)",
-       "stop-hooks-call-shutdown_wait", "inflight:event-that-stays-ready", "inflight:sync-broadcast-from-a-worker" };
+       "stop-hooks-call-shutdown_wait", "inflight:event-that-stays-ready", "inflight:sync-broadcast-from-a-worker",
+       "complete-an-async-operation-on-the-busy-worker", "stop-hook-of-the-last-worker-waits-on-the-gate" };
 
 #define MAXOPS 12
 typedef struct lvar_s {
@@ -28,11 +29,14 @@ static int have_b = 0;
 
 /* a worker's stop hook that waits for the pool's threads itself ("waiting ... from one of its own threads"): the call must
  * be refused (EDEADLK) and must not disturb the bookkeeping the outside waiter relies on */
-static int hook_waits = 0;
+static int hook_waits = 0, hook_gate = 0;
+static volatile int busy_gate = 0;
 static void
 c11_on_stop(tpt_p tpt) {
 	int rc;
 	tpc_on_stop(tpt);
+	if (hook_gate && (int)tpt_get_num(tpt) == tpc_W - 1)
+		sc_gate_wait(&busy_gate, "stop-hook");	/* the thread has left its loop and is not yet stopped until thread G lets it go */
 	if (hook_waits && (int)tpt_get_num(tpt) < tpc_W) {
 		rc = tp_shutdown_wait(tpt_get_tp(tpt));
 		sc_log("shutdown_wait from the stop hook of thread %d: rc=%d", (int)tpt_get_num(tpt), rc);
@@ -82,6 +86,18 @@ infl_sync_bcast_cb(tpt_p tpt, void *udata) {
 	tpc_add(E_CB_END, (int)tpt_get_num(tpt), 888, 0, 0);
 }
 
+/* an asynchronous operation completed towards a worker that is still busy while the pool is being shut down: the library
+ * allocated its record (tpt_msg_async_op_alloc) and accepted the completion message; it must be released before the pool
+ * is gone, whatever stands in front of it in the worker's queue */
+static int aop_calls = 0;
+static void
+late_aop_cb(tpt_p tpt, void **udata) {
+	(void)udata;
+	aop_calls ++;
+	tpc_add(E_CB_BEGIN, (int)tpt_get_num(tpt), 999, 0, 0);
+	tpc_add(E_CB_END, (int)tpt_get_num(tpt), 999, 0, 0);
+}
+
 static void
 infl_timer_cb(tp_event_p ev, tp_udata_p ud) {
 	tpc_add(E_EVENT, (int)tpt_get_num(ud->tpt), (long)ev->event, (long)ev->flags, 1);
@@ -95,7 +111,6 @@ shut_w_cb(tpt_p tpt, void *udata) {
 	tpc_add(E_CB_END, (int)tpt_get_num(tpt), 777, 0, 0);
 }
 
-static volatile int busy_gate = 0;
 static pthread_t thr_g;
 static int have_g = 0;
 
@@ -244,6 +259,9 @@ life_scenario(int idx) {
 		case O_HOOK_WAITS:
 			hook_waits = 1;
 			break;
+		case O_HOOK_GATE:
+			hook_gate = 1; busy_gate = 0;
+			break;
 		case O_INFL_STUCK:
 			if (0 != pipe(stuck_pipe) || 1 != write(stuck_pipe[1], "x", 1))
 				sc_fail("harness", "pipe");
@@ -253,6 +271,14 @@ life_scenario(int idx) {
 			rc = tpt_ev_add_args2(target_thread(), TP_EV_READ, 0, &stuck_udata);
 			sc_log("inflight stuck event rc=%d", rc);
 			break;
+		case O_LATE_AOP: {
+			tpt_msg_async_op_p aop = tpt_msg_async_op_alloc(target_thread(), late_aop_cb);
+			if (NULL == aop) sc_fail("harness", "tpt_msg_async_op_alloc");
+			aop_calls = 0;
+			tpt_msg_async_op_cb_free(aop, NULL);
+			sc_log("async operation completed towards the busy worker");
+			break;
+		}
 		case O_INFL_SYNC_BCAST:
 			rc = tpt_msg_send(target_thread(), NULL, 0, infl_sync_bcast_cb, NULL);
 			sc_log("inflight sync broadcast seed rc=%d", rc);
